@@ -139,6 +139,7 @@ pub fn build_scheduled(c: &BuiltCase, schedule: &mut Rng) -> Option<(ModuleGraph
     unstable_bytes_imports: c.unstable.0,
     unstable_text_imports: c.unstable.1,
     unstable_css_imports: c.unstable.2,
+    passthrough_jsr_specifiers: c.world.passthrough_jsr,
     executor: &exec,
     ..Default::default()
   };
